@@ -33,8 +33,12 @@ def PopulateOk (c : Case) : Prop :=
   | [] => True
   | m :: _ => if c.st = 1 ∨ c.st = 2 then m.unaryDefiner = true else m.streamDefiner = true
 
+/-- the relevant protocols are Connect and nothing else -/
+def OnlyConnect (s : Suite) : Prop := s.protos ≠ [] ∧ ∀ p ∈ s.protos, p = 1
+
+/-- client certificates without TLS; GET or a Connect version mode with other protocols in play -/
 def Misconfigured (s : Suite) : Prop :=
-  (s.certs = true ∧ s.tls = false) ∨ ((s.get = true ∨ s.cvm = 1 ∨ s.cvm = 2) ∧ s.onlyConnect = false)
+  (s.certs = true ∧ s.tls = false) ∨ ((s.get = true ∨ s.cvm = 1 ∨ s.cvm = 2) ∧ ¬ OnlyConnect s)
 
 def Admitted (mode : Nat) (s : Suite) : Prop := s.mode = 0 ∨ s.mode = mode
 
